@@ -6,7 +6,9 @@ namespace LinfaSpec.Predict
 
 
 
-theorem isoCell_written {α : Type} [LinearOrder α] [Add α] [Sub α] [Mul α] [Div α]
+/-- no order axiom is used: the statement holds for any decidable `≤`, in particular for IEEE floats
+with NaN (where `position` may find no knot and the query value itself is written) -/
+theorem isoCell_written {α : Type} [LE α] [DecidableLE α] [Add α] [Sub α] [Mul α] [Div α]
     (reg resp : List α) (v : α) (hne : reg ≠ []) (hlen : resp.length = reg.length) :
     ∃ c, isoCell reg resp v = some (some c) := by
   obtain ⟨xmin, hxmin⟩ : ∃ a, reg.head? = some a := by
@@ -34,13 +36,8 @@ theorem isoCell_written {α : Type} [LinearOrder α] [Add α] [Sub α] [Mul α] 
   by_cases h2 : v ≤ xmin
   · exact ⟨ymin, by simp [h1, h2]⟩
   simp only [h1, h2, if_false]
-  have hmem : xmax ∈ reg := List.mem_of_getLast? hxmax
   cases hp : positionGe reg v with
-  | none =>
-    unfold positionGe at hp
-    have := List.findIdx?_eq_none_iff.mp hp xmax hmem
-    simp at this
-    exact absurd (le_of_lt this) h1
+  | none => exact ⟨v, rfl⟩
   | some j =>
     unfold positionGe at hp
     obtain ⟨hj, _, _⟩ := List.findIdx?_eq_some_iff_getElem.mp hp
@@ -54,7 +51,7 @@ theorem isoCell_written {α : Type} [LinearOrder α] [Add α] [Sub α] [Mul α] 
 
 
 
-theorem isoWrite_eq_map {α : Type} [LinearOrder α] [Add α] [Sub α] [Mul α] [Div α]
+theorem isoWrite_eq_map {α : Type} [LE α] [DecidableLE α] [Add α] [Sub α] [Mul α] [Div α]
     (reg resp : List α) (g : α → α) (hg : ∀ v, isoCell reg resp v = some (some (g v)))
     (vs : List α) (y : List α) (hy : y.length = vs.length) :
     isoWrite reg resp (vs.map fun v => [v]) y = some (vs.map g) := by
@@ -73,7 +70,7 @@ theorem isoWrite_eq_map {α : Type} [LinearOrder α] [Add α] [Sub α] [Mul α] 
 /-- isotonic regression, linear order, non-empty model with as many responses as knots: every cell
 of every admissible buffer is written, so the in-place form returns `vs.map g` whatever the buffer
 held, and so do the `Predict` forms (buffer of zeros) -/
-theorem iso_inplace_overwrites' {α : Type} [LinearOrder α] [Add α] [Sub α] [Mul α] [Div α]
+theorem iso_inplace_overwrites' {α : Type} [LE α] [DecidableLE α] [Add α] [Sub α] [Mul α] [Div α]
     (reg resp : List α) (hne : reg ≠ []) (hlen : resp.length = reg.length) :
     ∃ g : α → α, (∀ v, isoCell reg resp v = some (some (g v))) ∧
       ∀ (vs y : List α), y.length = vs.length →
